@@ -522,3 +522,189 @@ def indicator_dfas():
     except OSError:
         pass
     return _cache['ind']
+
+
+# ------------------------------------------------------------------ pebbled languages (component boundaries)
+
+def _tag_of(name, path):
+    """which uriparser component a rule occurrence is (None = untagged)"""
+    up = path[-1] if path else None
+    if name == 'scheme':
+        return 'scheme'
+    if name == 'userinfo':
+        return 'userInfo'
+    if name == 'port':
+        return 'portText'
+    if name == 'query':
+        return 'query'
+    if name == 'fragment':
+        return 'fragment'
+    if name in ('ipv6address', 'ipvfuture') and up == 'ip-literal':
+        return 'hostText'
+    if name in ('ipv4address', 'reg-name') and up == 'host':
+        return 'hostText'
+    if name in ('segment', 'segment-nz', 'segment-nz-nc'):
+        return 'segment'
+    return None
+
+
+class PebbleDFA(object):
+    """DFA over (symbol class, pebble bit); accept_end = states accepting when the pebble sits at the end of input"""
+
+    def __init__(self, n, trans, accept, accept_end, class_of, ncls):
+        self.n, self.trans, self.accept, self.accept_end, self.class_of, self.ncls = n, trans, accept, accept_end, class_of, ncls
+
+
+def pebble_dfa(tag, end, multi=False):
+    """language of pebbled URI-references in which the pebble marks the begin (end='b') / the position after the
+    end (end='e') of the occurrence of component `tag` (no pebble when it is absent).  multi: the pebble marks one
+    of the non-empty occurrences (path segments)."""
+    key = ('peb', tag, end, multi)
+    if key in _cache:
+        return _cache[key]
+    import hashlib
+    import pickle
+    here = os.path.dirname(os.path.abspath(__file__))
+    h = hashlib.sha256(open(os.path.join(here, 'abnf.py'), 'rb').read() + open(os.path.join(here, 'rfc3986.abnf'), 'rb').read())
+    cdir = os.path.join(os.path.dirname(here), '.cache')
+    cpath = os.path.join(cdir, 'peb_%s_%s_%s.pkl' % (tag, end, h.hexdigest()[:20]))
+    if os.path.exists(cpath):
+        try:
+            with open(cpath, 'rb') as f:
+                _cache[key] = pickle.load(f)
+            return _cache[key]
+        except Exception:
+            pass
+    nfa = build_nfa(rfc3986_rules(), 'uri-reference', mark=_tag_of)
+    allsets = set()
+    for st in nfa.trans:
+        for s, _ in st:
+            allsets.add(s)
+    class_of, ncls = symbol_partition(allsets)
+    by_class = []
+    for st in nfa.trans:
+        d = {}
+        for s, tgt in st:
+            for c in set(class_of[x] for x in s):
+                d.setdefault(c, []).append(tgt)
+        by_class.append(d)
+    # phases: 0 outside, 'b' just entered an occurrence (nothing consumed), 'c' inside with >= 1 symbol,
+    #         1 marker crossed: the next symbol carries the pebble, 2 pebble placed
+    def eps_closure(states):
+        seen = set(states)
+        stack = list(states)
+        while stack:
+            s, ph = stack.pop()
+            for t, mk in nfa.eps[s]:
+                outs = []
+                if mk is None or mk[1] != tag:
+                    outs = [(t, ph)]
+                else:
+                    kind = mk[0]
+                    if not multi:
+                        if kind == end:
+                            if ph == 0:
+                                outs = [(t, 1)]
+                            elif ph == 2:
+                                outs = [(t, 2)]
+                            else:
+                                outs = []
+                        else:
+                            outs = [(t, ph)]
+                    else:
+                        if kind == 'b':
+                            if ph in (0, 'b', 'c'):
+                                outs = [(t, 'b')] + ([(t, 1)] if end == 'b' else [])
+                            elif ph == 2:
+                                outs = [(t, 2)]
+                            else:
+                                outs = []          # a second begin while waiting for the pebbled symbol
+                        else:
+                            if ph == 1:
+                                outs = [] if end == 'b' else [(t, 1)]
+                            elif ph == 'c':
+                                outs = [(t, 0)] + ([(t, 1)] if end == 'e' else [])
+                            elif ph == 'b':
+                                outs = [(t, 0)]
+                            else:
+                                outs = [(t, ph)]
+                for o in outs:
+                    if o not in seen:
+                        seen.add(o)
+                        stack.append(o)
+        return frozenset(seen)
+
+    def step(S, c, bit):
+        tg = set()
+        for s, ph in S:
+            for t in by_class[s].get(c, ()):
+                if bit == 0:
+                    if ph == 0 or ph == 2:
+                        tg.add((t, ph))
+                    elif ph in ('b', 'c'):
+                        tg.add((t, 'c'))
+                else:
+                    if ph == 1:
+                        tg.add((t, 2))
+        return eps_closure(tg) if tg else frozenset()
+    start = eps_closure([(nfa.start, 0)])
+    index = {start: 0}
+    order = [start]
+    trans = []
+    i = 0
+    while i < len(order):
+        S = order[i]
+        row = []
+        for c in range(ncls):
+            for bit in (0, 1):
+                T = step(S, c, bit)
+                if T not in index:
+                    index[T] = len(order)
+                    order.append(T)
+                row.append(index[T])
+        trans.append(row)
+        i += 1
+    accept = set(i for i, S in enumerate(order) if any(s == nfa.final and ph in (0, 2, 'b', 'c') for s, ph in S))
+    accept_end = set(i for i, S in enumerate(order) if any(s == nfa.final and ph == 1 for s, ph in S))
+    # minimise (Moore) with two acceptance bits
+    n = len(order)
+    part = [(1 if s in accept else 0) + (2 if s in accept_end else 0) for s in range(n)]
+    while True:
+        sig = {}
+        newp = [0] * n
+        for s in range(n):
+            k = (part[s],) + tuple(part[t] for t in trans[s])
+            if k not in sig:
+                sig[k] = len(sig)
+            newp[s] = sig[k]
+        done = len(sig) == len(set(part))
+        part = newp
+        if done:
+            break
+    rep = {}
+    for s in range(n):
+        rep.setdefault(part[s], s)
+    idx = {part[0]: 0}
+    queue = [part[0]]
+    blocks = []
+    while queue:
+        b = queue.pop(0)
+        blocks.append(b)
+        for t in trans[rep[b]]:
+            if part[t] not in idx:
+                idx[part[t]] = len(idx)
+                queue.append(part[t])
+    trans2 = [[idx[part[t]] for t in trans[rep[b]]] for b in blocks]
+    acc2 = set(idx[part[s]] for s in accept if part[s] in idx)
+    acce2 = set(idx[part[s]] for s in accept_end if part[s] in idx)
+    d = PebbleDFA(len(blocks), trans2, acc2, acce2, class_of, ncls)
+    _cache[key] = d
+    try:
+        os.makedirs(cdir, exist_ok=True)
+        tmp = cpath + '.%d.tmp' % os.getpid()
+        with open(tmp, 'wb') as f:
+            pickle.dump(d, f, protocol=pickle.HIGHEST_PROTOCOL)
+        os.replace(tmp, cpath)
+    except OSError:
+        pass
+    return d
